@@ -2,7 +2,8 @@
 From Coq Require Import NArith ZArith List.
 From Coq Require Extraction ExtrOcamlBasic.
 From ZV.Codec Require Import Bytes.
-From ZV.Stream Require Import DStreamModel CStreamModel StreamInst C10Hints C10Api C10Inst.
+From ZV.Stream Require Import DStreamModel CStreamModel StreamInst C10Hints C10Api C10Stab C10Inst.
 Extraction Language OCaml.
 Extraction "Extract/out/c10model.ml" Rhread Rsread Rextent default_dparams
-  Ta_new Ta_call Ta_stream Ta_flushStream Ta_endStream Ta_reset Ta_wview Ta_hint.
+  Ta_new Ta_call Ta_stream Ta_flushStream Ta_endStream Ta_reset Ta_wview Ta_hint
+  Ts_new Ts_call Ts_stream Ts_flushStream Ts_endStream.
